@@ -236,6 +236,13 @@ def points(tier: str) -> List[Dict[str, Any]]:
             for upd in (5, 15, 130):
                 for js in ((0.0,), (1.0,)):
                     pts.append({"fam": "multi", "kinds": [kind], "gaps": [], "age": age, "jitter": list(js), "update_after": upd})
+    # the same query datagram (id 0, as every real querier sends it) repeated
+    for kind in ("ptr", "ptr+txt", "srv"):
+        for gs in [(g,) for g in (1, 150, 500, 700, 999, 1000, 1001, 1500)] + \
+                  [(700, 700), (999, 999), (500, 600), (999, 1), (400, 400), (1000, 500)]:
+            for js in ((0.0, 0.0, 0.0), (1.0, 1.0, 1.0)):
+                pts.append({"fam": "multi", "kinds": [kind] * (len(gs) + 1), "gaps": list(gs), "age": 5000, "jitter": list(js),
+                            "same_bytes": True})
     # five queries: the same answer asked again while its first batch is still being held, so that groups emptied by the
     # send (an answer is never duplicated within a batch) sit at the head of the queue when another question arrives
     for g1, g2, g4 in itertools.product((0, 1), (390, 450, 499), (400, 450, 499, 520)):
@@ -290,6 +297,7 @@ def _run_point(p: Dict[str, Any], verbose: bool = False) -> Tuple[Optional[Dict[
         tj = p["tc_jitter"]
         rand = lambda a, b: a + int(round((b - a) * tj)) if (a, b) == (400, 500) else a  # noqa: E731
     hidden = False
+    dropped_identical = False
     with World(rand=rand) as w:
         announce = fam == "after-announce"
         host, s0 = setup(w, reference_sighting=not announce)
@@ -310,7 +318,9 @@ def _run_point(p: Dict[str, Any], verbose: bool = False) -> Tuple[Optional[Dict[
                     t += gaps[n - 1]
                 qs, probe = KINDS[kind]
                 auth = [("PTR", TA, 1, 4500, "proposed._a._tcp.local.")] if probe else []
-                data = wire.query([("Q", nm, ty, 1) for nm, ty in qs], authorities=auth, id_=n + 1)
+                # (distinct ids keep the duplicate-datagram guard out of the picture; 'same_bytes' schedules leave it in: real
+                # queriers all use id 0, so a repeated question IS the same datagram)
+                data = wire.query([("Q", nm, ty, 1) for nm, ty in qs], authorities=auth, id_=0 if p.get("same_bytes") else n + 1)
                 queries.append(Query(t, qs, probe))
                 script.append((t, data, "10.0.0.99"))
             if p.get("update_after") is not None:
@@ -330,6 +340,28 @@ def _run_point(p: Dict[str, Any], verbose: bool = False) -> Tuple[Optional[Dict[
                 again: List[str] = []
                 judge(again, host.name, w, queries, t_begin, floor, seen_proc.log)
                 hidden = not again
+                if not hidden and p.get("same_bytes"):
+                    # would the envelopes hold if the queries that AsyncListener's duplicate guard discards (byte-identical to
+                    # the datagram handled less than a second before on that socket) had never been sent?  then this is the
+                    # open finding about identical queries, otherwise something else is wrong
+                    # (the guard compares with the datagram handled LAST on the socket - the host's own looped-back answers
+                    # count - and remembers only datagrams it handled)
+                    dropped_at: Set[float] = set()
+                    prev_data: Optional[bytes] = None
+                    last_time = -1e18
+                    for (t_arr, hname, data_arr, _src) in w.net.arrivals:
+                        if hname != host.name:
+                            continue
+                        if data_arr == prev_data and t_arr - 1000 < last_time:
+                            dropped_at.add(round(t_arr, 3))
+                            continue
+                        prev_data, last_time = data_arr, t_arr
+                    kept = [q for q in queries if round(q.t, 3) not in dropped_at]
+                    if len(kept) < len(queries):
+                        third: List[str] = []
+                        judge(third, host.name, w, kept, t_begin, floor, wire_sightings(w, host))
+                        if not third:
+                            dropped_identical = True
         else:
             t_begin = s0 + 5000
             w.advance_to_ms(t_begin - 1)
@@ -348,7 +380,8 @@ def _run_point(p: Dict[str, Any], verbose: bool = False) -> Tuple[Optional[Dict[
     verdict = None
     if problems:
         verdict = {"what": f"C12 {p}: {problems[0][:700]}", "replay": {"problems": problems[:5]},
-                   "signature": {"check": "sighting-hidden-by-duplicate-guard" if hidden else problems[0].split(":")[0]}}
+                   "signature": {"check": "sighting-hidden-by-duplicate-guard" if hidden else (
+                       "identical-query-dropped" if dropped_identical else problems[0].split(":")[0])}}
     return verdict, obs, w.loop.handles_run
 
 
